@@ -1327,7 +1327,8 @@ RULE = (
     "tie-free and dense edge sets) fed to the real disambiguate_matching, each under several seeded proposer "
     "schedules (fifo, lifo, random, smallest, largest, starve-one); series level: the real match_storms on in-memory "
     "rain / head series with independently drawn heavy-rain and rising-limb run patterns, plus every heavy x rising "
-    "pattern of stretches of 2..6 samples (2..8 in the thorough tier); data level: spowtd load + classify through "
+    "pattern of stretches of 2..6 samples (2..8 in the thorough tier); data level: every record of 4 rain steps "
+    "(5 in the thorough tier) over {dry, drizzle, heavy} x {flat, jump} through the real load + classify; spowtd load + classify through "
     "user_interface.main on synthetic records built from contention templates and on the two field datasets "
     "at seeded threshold pairs, several schedules each, pairing tables read back through a fresh connection. "
     "A case is non-trivial when the run re-queued at least one storm (rejection or displacement) or made more "
@@ -1344,9 +1345,58 @@ ASSUMPTIONS = [
 
 TIERS = {
     # (function jobs, instances per job, schedules) , (synthetic jobs, datasets per job, threshold pairs, schedules), (field threshold pairs, schedules)
-    "quick": {"fn": (48, 250, 6), "series": (48, 150, 4), "syn": (64, 6, 2, 4), "field": (7, 3), "small_limit": 6, "long_series": 3},
-    "thorough": {"fn": (640, 1000, 8), "series": (640, 600, 6), "syn": (640, 12, 3, 6), "field": (40, 8), "small_limit": 8, "long_series": 24},
+    "quick": {"fn": (48, 250, 6), "series": (48, 150, 4), "syn": (64, 6, 2, 4), "field": (7, 3), "small_limit": 6, "long_series": 3, "tiny_n": 4},
+    "thorough": {"fn": (640, 1000, 8), "series": (640, 600, 6), "syn": (640, 12, 3, 6), "field": (40, 8), "small_limit": 8, "long_series": 24, "tiny_n": 5},
 }
+
+
+def tiny_records(n):
+    """Every record of n rain steps over {dry, drizzle, heavy} x {flat, jump}:
+    a complete enumeration of tiny datasets through the real load + classify
+    (run detection, mystery-jump flags, interstorm intervals and matching
+    together), complementing the series-level enumeration of match_storms."""
+    s0, j0, dt = 4.0, 5.0, 3600
+    jd0 = j0 * dt / 3600.0
+    rain_levels = (0.0, 0.5 * s0, 2.0 * s0)
+    dz_levels = (0.3 * jd0, 2.0 * jd0)
+    count = (len(rain_levels) ** n) * (len(dz_levels) ** n)
+    for idx in range(count):
+        k = idx
+        rain, dz = [], []
+        for _ in range(n):
+            k, r = divmod(k, len(rain_levels))
+            rain.append(rain_levels[r])
+        for _ in range(n):
+            k, r = divmod(k, len(dz_levels))
+            dz.append(dz_levels[r])
+        yield idx, {"kind": "synthetic", "dt": dt, "s0": s0, "j0": j0, "z0": -100.0, "z_base": -150.0,
+                    "timezone": "UTC", "t0": "2013-03-01 00:00:00", "wl_per_step": 1,
+                    "segments": [{"kind": "tiny", "rain": rain, "dz": dz}], "gaps": [],
+                    "wl_skip_head": 0, "wl_skip_tail": 0}
+
+
+def tiny_job(job):
+    stats = collections.Counter()
+    violations, distinct = [], []
+    with runner.RunDir() as directory:
+        for idx, spec in tiny_records(job["n"]):
+            if idx % job["of"] != job["part"]:
+                continue
+            schedules = [Schedule(pol, runner.derive_seed(job["seed"], idx, pol)) for pol in ("fifo", "lifo")]
+            v, st, di, _info = run_data_case(spec, (spec["s0"], spec["j0"]), schedules, directory)
+            stats.update(st)
+            stats["tiny_records_enumerated"] += 1
+            distinct.extend(di)
+            for x in v:
+                x["replay"]["seed"] = job["seed"]
+            violations.extend(v)
+    kept, seen = [], collections.Counter()
+    for x in violations:
+        key = (x["property"], x["class"], json.dumps(x["signature"], sort_keys=True))
+        seen[key] += 1
+        if seen[key] <= 2:
+            kept.append(x)
+    return {"stats": stats, "violations": kept, "distinct": distinct, "samples": []}
 
 
 def field_job(job):
@@ -1412,6 +1462,10 @@ def check(prop, tier, only=None):
             for part in range(parts):
                 jobs.append(("small", {"seed": runner.derive_seed(seed, prop, "small"), "limit": cfg["small_limit"],
                                        "part": part, "of": parts}))
+        if only in (None, "data", "tiny"):
+            for part in range(16):
+                jobs.append(("tiny", {"seed": runner.derive_seed(seed, prop, "tiny"), "n": cfg["tiny_n"],
+                                      "part": part, "of": 16}))
         if only in (None, "data"):
             for i in range(syn_jobs):
                 jobs.append(("syn", {"seed": runner.derive_seed(seed, prop, "syn", i), "count": syn_count,
@@ -1433,7 +1487,7 @@ def check(prop, tier, only=None):
                                            "thresholds": fixed[i] if i < len(fixed) else None,
                                            "want_samples": i < 2}))
         # long jobs first
-        order = {"field": 0, "long": 1, "syn": 2, "small": 3, "series": 4, "fn": 5}
+        order = {"field": 0, "long": 1, "tiny": 2, "syn": 3, "small": 4, "series": 5, "fn": 6}
         jobs.sort(key=lambda j: order[j[0]])
         for result in runner.run_jobs(_dispatch, jobs):
             report.absorb(result)
@@ -1479,6 +1533,8 @@ def _dispatch(job):
         return series_small_job(payload)
     if kind == "long":
         return long_series_job(payload)
+    if kind == "tiny":
+        return tiny_job(payload)
     return field_job(payload)
 
 
